@@ -44,10 +44,13 @@ type c02Case struct {
 	NetCut int
 	// Chunk: polling / jsonp: data requests without a declared length, the body arriving in pieces of this size
 	Chunk int
+	// Deflated: websocket: perMessageDeflate is configured, the client negotiated it and sends its messages
+	// compressed (those that get smaller that way)
+	Deflated bool
 }
 
 func (c c02Case) String() string {
-	return fmt.Sprintf("{%s rev%d b64=%v v3binary=%v pkts=%s split=%v frags=%v wtform=%d tail=%s tight=%v netcut=%d chunk=%d}", c.Carrier, c.Rev, c.B64, c.V3Binary, pktsString(c.Pkts), c.Split, c.Frags, c.WTForm, c.Tail, c.Tight, c.NetCut, c.Chunk)
+	return fmt.Sprintf("{%s rev%d b64=%v v3binary=%v pkts=%s split=%v frags=%v wtform=%d tail=%s tight=%v netcut=%d chunk=%d deflated=%v}", c.Carrier, c.Rev, c.B64, c.V3Binary, pktsString(c.Pkts), c.Split, c.Frags, c.WTForm, c.Tail, c.Tight, c.NetCut, c.Chunk, c.Deflated)
 }
 
 var c02Texts = []string{"", "a", "hello", "4", "0", "2probe", "5:4abc", "1:2", "12:", "b4aGVsbG8=", "bQUJD", "ünï", "😀", "a😀b€c", "日本語テキスト", "with\nnewline", "back\\slash", "\\n", "\\\\n", "quote\"'", "a:b:c", "%41+%2B&d=x", "\t\r", "{\"k\":[1,2]}", "  ", "</script>"}
@@ -156,6 +159,7 @@ func genC02(rt *rapid.T, knownScanner bool, col *Collector) c02Case {
 	if (c.Carrier == "polling" || c.Carrier == "jsonp") && rapid.IntRange(0, 2).Draw(rt, "chunked") == 0 {
 		c.Chunk = rapid.SampledFrom([]int{1, 3, 100, 4096, 70000}).Draw(rt, "chunk")
 	}
+	c.Deflated = c.Carrier == "websocket" && rapid.IntRange(0, 2).Draw(rt, "deflated") == 0
 	c.Tight = rapid.IntRange(0, 2).Draw(rt, "tightLimit") == 0
 	c.Tail = rapid.SampledFrom([]string{"none", "none", "afterClose", "candidate", "cutUpload", "cutUpload"}).Draw(rt, "tail")
 	c.CutAt = rapid.IntRange(1, 60).Draw(rt, "cutAt")
@@ -210,8 +214,12 @@ func runC02(c c02Case) (fail string, stats map[string]bool) {
 		o.SetMaxHttpBufferSize(limit)
 		stats["tight-limit"] = true
 	}
+	if c.Deflated {
+		o.SetPerMessageDeflate(&types.PerMessageDeflate{Threshold: 1024})
+	}
 	w := NewWorld(o)
 	defer w.Teardown()
+	w.WSOfferDeflate = c.Deflated
 	eio := "4"
 	if c.Rev == 3 {
 		eio = "3"
@@ -295,6 +303,13 @@ func runC02(c c02Case) (fail string, stats map[string]bool) {
 					s.wc.SendRaw(raw[:c.NetCut])
 					Settle()
 					s.wc.SendRaw(raw[c.NetCut:])
+					continue
+				}
+			}
+			if c.Deflated && len(frags) == 0 && s.wc.Negotiated() {
+				if plain := len(encPacketFrame(c.Rev, c.B64, p).Data); deflatedLen(encPacketFrame(c.Rev, c.B64, p).Data) <= plain {
+					s.wc.SendPacketDeflated(p)
+					stats["message-sent-compressed"] = true
 					continue
 				}
 			}
@@ -540,7 +555,7 @@ func TestC02Inbound(t *testing.T) {
 		}
 	})
 	req := []string{"carrier.polling.rev4", "carrier.polling.rev3", "carrier.jsonp.rev4", "carrier.jsonp.rev3", "carrier.websocket.rev4", "carrier.websocket.rev3", "carrier.webtransport.rev4", "v3-binary-payload", "multi-packet-payload", "non-ascii-text", "binary", "empty-data", "close-not-last", "post-after-close", "candidate-traffic", "traffic-after-close", "fragmented-frames", "non-minimal-length-form", ">=64KiB", "tight-limit"}
-	req = append(req, "connection-died-inside-a-payload", "frame-header-split-in-transit", "data-requests-without-declared-length")
+	req = append(req, "connection-died-inside-a-payload", "frame-header-split-in-transit", "data-requests-without-declared-length", "message-sent-compressed")
 	col.RequireClasses(t, req...)
 }
 
